@@ -73,3 +73,8 @@ package discov
 //@   ensures  true
 //@   loop 0: modifies nothing
 //@   loop 0: invariant true
+
+//@ func newContainer
+//@   property C13
+//@   ensures  fresh(result) && result.exclusive == exclusive
+//@   allocates
